@@ -94,6 +94,9 @@ var detDocs = []string{
 	`query Second($id: Int!) { ...Sel } query First { ...Sel } fragment Sel on Query { item(id: $id) { id } }`,
 	`query A($id: Int!) { ...Sel } query B($id: String) { ...Sel } query C { ...Sel ...Sel } fragment Sel on Query { item(id: $id) { id ...N } } fragment N on Item { name @skip(if: $flag) }`,
 	`query A { box(width: $w) } query B($w: Int = 2, $unused: Int) { box(width: $w, height: $h) } query C($h: Int) { ...Bx } fragment Bx on Query { box(height: $h) }`,
+	// fragments that spread each other around an inline fragment and conflict (rules that look across spreads)
+	`query { ...F1 } fragment F1 on Query { ...F2 x: item(id: 1) { id } } fragment F2 on Query { ... on Query { x: dog { name } ...F1 } }`,
+	`{ ...F1 } fragment F1 on Query { ...F2 x: box(width: 1) } fragment F2 on Query { pets { name } ... on Query { x: box(width: 2) ...F3 } } fragment F3 on Query { ...F1 x: box }`,
 	`{ dog { ...A ...B } } fragment A on Dog { ...B } fragment B on Dog { ...A }`, `{ a: dog { name } a: item(id: 1) { name } b: dog { n: name } b: dog { n: barks } }`,
 }
 
@@ -156,6 +159,28 @@ func checkC10(c *core.Ctx) {
 	}
 	for _, q := range handRuleDocs {
 		rq.Pairs = append(rq.Pairs, []string{handRuleSDL, q})
+	}
+	// documents built to stress what rules remember and what the walk has linked so far: the adversarial
+	// families of C02 at small sizes (fragment fan-out, cycles through fields, fragments spreading each other
+	// while overlapping, exclusive-then-shared) and every third document of the merge family of C08
+	for _, f := range adversaryFamilies {
+		for _, n := range []int{2, 3, 5} {
+			rq.Pairs = append(rq.Pairs, []string{adversarySDL, adversaryDoc(f, n)})
+		}
+	}
+	for i, q := range mergeFamilyDocs() {
+		if i%3 == 0 {
+			rq.Pairs = append(rq.Pairs, []string{handRuleSDL, q})
+		}
+	}
+	// conflicting variants of the cyclic families (a cycle guard must not hide or duplicate a conflict)
+	for _, q := range []string{
+		`{ q { ...A0 } } fragment A0 on Query { q { ...A1 } x: i } fragment A1 on Query { ... on Query { q { ...A0 } x: l { i } } }`,
+		`{ ...A0 ...A1 } fragment A0 on Query { ...A1 x: i } fragment A1 on Query { ... { ...A0 x: j(a: 1) } }`,
+		`{ q { l { ...X } ...A0 } } fragment X on Query { x: i } fragment A0 on Query { l { ...X x: j(a: 2) } ...A1 } fragment A1 on Query { ... on Query { l { x: j } ...A0 } }`,
+		`query A { ...F } query B { ...G } fragment F on Query { ...G x: i } fragment G on Query { ... on Query { ...F x: j } }`,
+	} {
+		rq.Pairs = append(rq.Pairs, []string{adversarySDL, q})
 	}
 	for i := 0; i < nbadSchemas; i++ {
 		s := tg.Gen()
